@@ -643,13 +643,13 @@ class MaskedCopyNative(Contract):
     variant = "masked-copy"
     symbolic = False
     has_native = True
-    props = ("C07", "C12")
-    bounded_scope = "open (n-1 cells) and closed (n cells) curves with 5-6 vertices, vertex and cell data created in either order, 8 vertex masks each (exhaustive over the listed shapes)"
+    props = ("C07", "C12", "C13")
+    bounded_scope = "open (n-1 cells) and closed (n cells) curves with 5-6 vertices, vertex and cell data created in either order (or after an object-associated text), 8 vertex masks each (exhaustive over the listed shapes)"
 
     def native_cases(self, tier, rng):
         masks6 = [[1, 1, 0, 1, 1, 1], [0, 1, 1, 1, 1, 1], [1, 1, 1, 1, 1, 0], [1, 0, 1, 0, 1, 1], [1, 1, 1, 0, 0, 1], [0, 0, 1, 1, 1, 1], [1, 1, 1, 1, 1, 1], [1, 1, 0, 0, 1, 1]]
         for closed in (False, True):
-            for order in ("cell-first", "vertex-first"):
+            for order in ("cell-first", "vertex-first", "object-first"):
                 for m in masks6:
                     yield {"n": 6, "closed": closed, "order": order, "mask": m}
 
@@ -666,6 +666,9 @@ class MaskedCopyNative(Contract):
             vvals, cvals = np.arange(n, dtype=float) + 100, np.arange(len(cells), dtype=float) + 500
             specs = [("cd", cvals, "CELL"), ("vd", vvals, "VERTEX")]
             if case["order"] == "vertex-first":
+                specs.reverse()
+            if case["order"] == "object-first":  # a data set that belongs to the object as a whole comes first, then vertex data, then cell data
+                c.add_data({"note": {"values": "whole object", "association": "OBJECT", "type": "text"}})
                 specs.reverse()
             for name, vals, assoc in specs:
                 c.add_data({name: {"values": vals.copy(), "association": assoc}})
